@@ -450,7 +450,7 @@ CHECKS['C09'] = dict(
          "enabled with 15..40 % expected loss in 3 of 4 SILK/hybrid streams; decoder rate/channels may differ from the encoder's) and ALL "
          "2^k loss patterns over a window of k consecutive packets (k=8 quick, 12 thorough) at a random position; each pattern is decoded from "
          "a reset decoder with the lost packets concealed by whole-packet calls, by 2.5/5/10/20 ms pieces, or recovered by an FEC call on the "
-         "next packet (also with frame_size twice the packet). burst: long bursts 1..10 s and random 10 % loss. Every call is checked for "
+         "next packet (also with frame_size twice the packet). burst: long bursts 1..10 s and random 10 % loss. multiburst: up to 60 s streams with several 4..10 s bursts 0.3..1.2 s apart in one decoder lifetime. Every call is checked for "
          "the requested duration, finite samples, final range of received packets, level bounds against the last 500 ms decoded, decay after "
          "1 s, FEC vs concealment on a cloned decoder (error energy against the loss-free twin where LBRR is present, exact equality where it "
          "is not), the sub-frame gains of every frame rebuilt from LBRR data against the gains the encoder quantised that LBRR frame with "
@@ -464,9 +464,11 @@ CHECKS['C09'] = dict(
         dict(h='h_c09.c', mode='window', flavour='asan', n={'quick': 32, 'thorough': 320}, args={'quick': ['k=6'], 'thorough': ['k=8']}),
         dict(h='h_c09.c', mode='window', flavour='prod-fixed', n={'quick': 96, 'thorough': 320}, args={'quick': ['k=8'], 'thorough': ['k=10']}),
         dict(h='h_c09.c', mode='burst', flavour='asan-fixed', n={'quick': 64, 'thorough': 1600}),
+        dict(h='h_c09.c', mode='multiburst', flavour='prod', n={'quick': 160, 'thorough': 3200}),
+        dict(h='h_c09.c', mode='multiburst', flavour='prod-fixed', n={'quick': 48, 'thorough': 800}),
     ],
     min_nontrivial={'quick': 40, 'thorough': 60},
-    min_counters={'quick': {'patterns': 60000, 'plc_calls': 500000, 'fec_calls': 50000, 'fec_lbrr_events': 10000, 'lbrr_subframe_gains_compared': 100000, 'recoveries_checked': 50000, 'bursts_over_1s': 600},
+    min_counters={'quick': {'patterns': 60000, 'plc_calls': 500000, 'fec_calls': 50000, 'fec_lbrr_events': 10000, 'lbrr_subframe_gains_compared': 100000, 'recoveries_checked': 50000, 'bursts_over_1s': 600, 'multiburst_patterns': 100},
                   'thorough': {'patterns': 2000000}},
 )
 
